@@ -39,7 +39,13 @@ and label_of_raw (tok : string) : label =
   | ["Jo"; m; "l"] -> LJoin (JOk (nat_of_hex m, LeaderOk))
   | ["Jo"; m; f] when String.length f = 3 && f.[0] = 'f' -> LJoin (JOk (nat_of_hex m, LeaderFail (cls_of (String.sub f 1 2))))
   | ["Je"; c] -> LJoin (JErr (cls_of c))
-  | ["Sy"; a] -> LSync (ans_of a)
+  | ["Sy"; a] -> LSync (ans_of a, [])
+  | ["Sy"; "ok"; "e"] -> LSync (AOk, [])
+  | ["Sy"; "ok"; asg] ->
+    let entry e = (match String.split_on_char '=' e with
+        | [t; ps] -> (nat_of_hex t, if ps = "" then [] else List.map nat_of_hex (String.split_on_char '.' ps))
+        | _ -> failwith ("assignment " ^ e)) in
+    LSync (AOk, List.map entry (String.split_on_char ',' asg))
   | ["Fe"; a] -> LFetch (ans_of a)
   | ["SH"] -> LStartHB | ["SW"] -> LStartWatch
   | ["PA"] -> LPublishAbort | ["WC"] -> LWaitClosed | ["WD"] -> LWaitGenDone
@@ -180,6 +186,17 @@ let eval_soak (toks : string list) : string =
   | [] -> "ok"
   | bad -> String.concat "+" (List.map fst bad)
 
+let eval_standby () : string =
+  match run (init O) standby_scenario with
+  | None -> "STUCK"
+  | Some s ->
+    let count p = List.length (List.filter p s.hist) in
+    Printf.sprintf "standby started=1 hb=%s rejoin=%s leave=%s closed=%d"
+      (b01 (count (function HHeartbeat _ -> true | _ -> false) >= 2))
+      (b01 (count (function HJoinReq _ -> true | _ -> false) >= 2))
+      (b01 (count (function HLeaveReq m -> int_of_nat m = 1 | _ -> false) >= 1))
+      (count (function HCloseRet _ -> true | _ -> false))
+
 let eval_wire () : string =
   match run (init O) f5_scenario with
   | None -> "STUCK"
@@ -198,6 +215,7 @@ let eval (op : string) (a : string list) : string =
   match op, a with
   | "gen", ops -> eval_gen ops
   | ("e2e" | "e2e-f5" | "e2e-joinerr"), w :: labels -> eval_e2e w labels
+  | "wire", ["standby"] -> eval_standby ()
   | "wire", _ -> eval_wire ()
   | "soak", toks -> eval_soak toks
   | _ -> "BADCASE"
